@@ -236,8 +236,55 @@ fn hostile_table_case<T: Sc>(rng: &mut Rng, case: u64, out: &mut CaseOut, ops: &
     exercise::<T>(&spec, &alphas, &cfg, out, ops);
 }
 
+/// (viii) whatever the model builder accepts must be usable: models built from random (near-valid)
+/// builder programs with closures of arbitrary arity are evaluated, differentiated and fitted
+fn builder_program_case(rng: &mut Rng, case: u64, out: &mut CaseOut, ops: &OpLog) {
+    use crate::props::c15::{build_real, mutate, random_valid};
+    use varpro::prelude::*;
+    let mut p = random_valid(rng);
+    for _ in 0..rng.below(3) {
+        mutate(rng, &mut p);
+    }
+    ops.op(&format!("model builder program {:?} / {:?}", p.names, p.calls));
+    out.seen("classes", "builder-program");
+    out.evals += 1;
+    let model = match build_real(&p) {
+        Ok(m) => m,
+        Err(_) => {
+            out.count("builder_programs_rejected");
+            return;
+        }
+    };
+    out.count("builder_programs_accepted");
+    out.nontrivial.push(crate::rng::fnv(format!("{:?}", p).as_bytes()));
+    let n = model.output_len();
+    let np = model.parameter_count();
+    ops.op("eval / eval_partial_deriv on the accepted model");
+    let _ = model.eval();
+    for k in 0..np {
+        let _ = model.eval_partial_deriv(k);
+    }
+    if n == 0 {
+        return;
+    }
+    let y = Mat::from_fn(n, 1, |i, _| (0.3 * i as f64).cos() + 2.0);
+    let spec = ProblemSpec { model: ModelKind::OneCol { n, row: 0 }, alpha0: vec![0.0; np], y, w: None, eps: None, mrhs: false, par: rng.chance(0.3) };
+    let spy = crate::spy::Spy::new(crate::zoo::AnyModel::Built(model), SpyCtl::new());
+    ops.op("problem build + fit_with_statistics on the accepted model");
+    if let Ok(prob) = build_problem_with::<f64>(&spec, spy) {
+        let lm = LmCfg { ftol: 1e-8, xtol: 1e-8, gtol: 0.0, stepbound: 100.0, patience: 5, scale_diag: true, default: false }.make::<f64>();
+        let _ = prob.fit_with_statistics(&lm);
+    }
+    if case < 64 {
+        out.sample(json!({"class": "builder-program", "names": p.names, "calls": p.calls.len()}));
+    }
+}
+
 pub fn case(rng: &mut Rng, case: u64, out: &mut CaseOut, ops: &OpLog) {
     let f32_ = rng.chance(0.3);
+    if rng.chance(0.15) {
+        return builder_program_case(rng, case, out, ops);
+    }
     match rng.below(10) {
         0..=3 => {
             if f32_ {
@@ -264,10 +311,10 @@ pub fn case(rng: &mut Rng, case: u64, out: &mut CaseOut, ops: &OpLog) {
 }
 
 pub fn run(ctx: &Ctx) {
-    ctx.rule("cases: (a) multi-exponential fits from random starts (tau in [-10,10], 0.2x-5x and -1x..3x the truth) under default and random optimizer settings; (b) zoo problems with values from the hostile IEEE-754 pool {0,-0,+-1,NaN,+-inf,+-MAX,MIN_POSITIVE,5e-324,1e+-300,1e+-154,...} substituted into x, y, w, alpha, epsilon with probability 0.02..0.6; (c) table models N=1..9 (including N<M), M=1..4, P=1..3, S=1..3 with hostile entries in values and derivatives; 30% f32; each case = build, 0..3 parameter updates with queries, fit, fit_with_statistics and every statistics accessor, executed in a child process under a CPU-time watchdog. distinct = hash of the generated problem; non-trivial = hostile value injected or random start");
+    ctx.rule("cases: (a) multi-exponential fits from random starts (tau in [-10,10], 0.2x-5x and -1x..3x the truth) under default and random optimizer settings; (b) zoo problems with values from the hostile IEEE-754 pool {0,-0,+-1,NaN,+-inf,+-MAX,MIN_POSITIVE,5e-324,1e+-300,1e+-154,...} substituted into x, y, w, alpha, epsilon with probability 0.02..0.6; (d) models accepted by the model builder from random near-valid builder programs (closures of arity 1..10) are evaluated, differentiated and fitted; (c) table models N=1..9 (including N<M), M=1..4, P=1..3, S=1..3 with hostile entries in values and derivatives; 30% f32; each case = build, 0..3 parameter updates with queries, fit, fit_with_statistics and every statistics accessor, executed in a child process under a CPU-time watchdog. distinct = hash of the generated problem; non-trivial = hostile value injected or random start");
     ctx.assume(&format!("liveness restated as bounded progress: every case returns within {CPU_BUDGET_S} CPU-seconds (isolated replay: 3x), >=100x the slowest legitimately terminating case of this corpus"));
     ctx.assume("panics are caught inside the child (catch_unwind) and reported as events; the panic location decides whether the subject or the harness panicked");
-    let n = ctx.tier.pick(6000, 150000);
+    let n = ctx.tier.pick(10000, 150000);
     let wall = ctx.tier.pick(120.0, 900.0);
     for profile in ["checked", "release"] {
         let exe = exe_for_profile(profile);
